@@ -145,6 +145,13 @@ def WCB.build (w : WCB) (f : Ty → Toks) : Toks :=
 def WCB.pushIf (w : WCB) (use : Bool) (b : Bounds) : WCB × Bool :=
   if use then w.pushBounds b else (w, false)
 
+/-- `#ident #type_g` as tokens and as a type -/
+def thisTyToks (name : String) (g : Generics) : Toks := name :: g.useToks
+def thisTy (name : String) (g : Generics) : Ty :=
+  .path false [.mk name ((ltFirst g.params).map fun
+    | .lt n _ => GArg.lt n
+    | p => GArg.ty (Ty.simple p.name))]
+
 /-! ## `DeriveEntry` -/
 
 structure Entry where
@@ -357,7 +364,7 @@ def HAttrs.fromAttrs (attrs : List Attr) (target : Target) (k : Kinds) : R HAttr
 
 /-- `HelperAttributesForCompareOp::push_bounds` -/
 def CmpHs.pushBounds (c : CmpHs) (op : CmpOp) (w : WCB) : WCB × Bool :=
-  CmpOp.all.foldl (init := (w, true)) fun (w, u) source =>
+  CmpOp.all.reverse.foldl (init := (w, true)) fun (w, u) source =>
     if source.effectsTo op && u then w.pushBounds (c.get source.attr).bounds else (w, u)
 
 /-- `push_bounds_to_raw` -/
